@@ -276,8 +276,11 @@ class Ctx:
             self.inconclusive.append({'reason': reason, 'case': case})
         self.count('inconclusive_cases')
 
-    def time_left(self):
-        return self.deadline is None or time.time() < self.deadline
+    def time_left(self, share=1.0):
+        """share < 1: has less than that share of the budget been used? (phases of one batch split the budget)"""
+        if self.deadline is None:
+            return True
+        return time.time() < self.t0 + (self.deadline - self.t0) * share
 
     def result(self):
         return {'prop': self.prop, 'tier': self.tier, 'seed': self.seed, 'batch': self.batch,
